@@ -43,9 +43,11 @@ class C09(_BldProp):
 
     def project(self, op, line):
         k, v = bld_result(line)
+        # C09 speaks about builds that succeed; the failures it requires are checked by the relation.
+        # Whether some *other* sequence fails is not pinned here (success is pinned by C07 / C13 / C20).
         if k == "ok":
             return ("ok", v[14:16].hex(), len(v))
-        return (k, v)
+        return "panic" if str(k).startswith(("panic", "crash")) else None
 
     def relation(self, ops, impl):
         out = []
@@ -107,9 +109,10 @@ class C10(_BldProp):
 
     def project(self, op, line):
         k, v = bld_result(line)
+        # "for every sequence of builder calls that succeeds": a failing sequence is out of domain
         if k == "ok":
             return ("ok", v.hex())
-        return ("err",)
+        return "panic" if str(k).startswith(("panic", "crash")) else None
 
     def relation(self, ops, impl):
         out = []
